@@ -27,7 +27,8 @@ type tgProp struct {
 type tgCase struct {
 	Rev     bool                `json:"rev,omitempty"` // print properties (and choice alternatives) in reverse order
 	Types   map[string][]tgProp `json:"types"`
-	Forms   map[string]string   `json:"forms,omitempty"` // "object" (default) | "nullable-object" | "alias" | "nullable-alias"
+	Forms   map[string]string   `json:"forms,omitempty"`      // "object" (default) | "nullable-object" | "alias" | "nullable-alias"
+	OptDef  bool                `json:"optdefault,omitempty"` // every schema object is created with AreKeysOptionalByDefault
 	Finite  bool                `json:"finite"`
 	SelfReq bool                `json:"selfreq"`
 	Cycle   bool                `json:"cycle"`
@@ -73,6 +74,8 @@ func tgText(props []tgProp, form string) string {
 			switch p.M {
 			case "optional":
 				ann = " // {optional: true}"
+			case "required":
+				ann = " // {optional: false}"
 			case "nullable":
 				ann = " // {nullable: true}"
 			case "array":
@@ -144,13 +147,16 @@ func tgEval(cs tgCase) []core.Finding {
 			cs.Types = rt
 		}
 		root := jschema.New("@main", tgText(cs.Types["0"], cs.Forms["0"]))
+		root.AreKeysOptionalByDefault = cs.OptDef
 		for _, k := range names {
 			if k == "0" {
 				continue
 			}
 			var i int
 			fmt.Sscan(k, &i)
-			if err := root.AddType(tgName(i), jschema.New(tgName(i), tgText(cs.Types[k], cs.Forms[k]))); err != nil {
+			ty := jschema.New(tgName(i), tgText(cs.Types[k], cs.Forms[k]))
+			ty.AreKeysOptionalByDefault = cs.OptDef
+			if err := root.AddType(tgName(i), ty); err != nil {
 				return []core.Finding{{Class: "typegraph:addtype", What: fmt.Sprintf("AddType(%s) failed: %v", tgName(i), firstLineOf(err))}}
 			}
 		}
@@ -229,12 +235,15 @@ func runC06(c *core.Ctx) error {
 		sample     int // replay every k-th uninteresting graph
 	}
 	allModes := `{"plain", "optional", "nullable", "array"}`
-	mkf := func(n, mr, mo int, ring bool, modes string, fat int, forms string) string {
+	mko := func(n, mr, mo int, ring bool, modes string, fat int, forms string, optdef string) string {
 		r := "FALSE"
 		if ring {
 			r = "TRUE"
 		}
-		return fmt.Sprintf("SPECIFICATION Spec\nCONSTANTS\n  N = %d\n  MaxRoot = %d\n  MaxOther = %d\n  Ring = %s\n  ModesUsed = %s\n  FatTypes = %d\n  RootForms = %s\nINVARIANTS Theorem FixIsFixpoint NoRefsAreFinite NullableRootsAreFinite Emit\nCHECK_DEADLOCK FALSE\n", n, mr, mo, r, modes, fat, forms)
+		return fmt.Sprintf("SPECIFICATION Spec\nCONSTANTS\n  N = %d\n  MaxRoot = %d\n  MaxOther = %d\n  Ring = %s\n  ModesUsed = %s\n  FatTypes = %d\n  RootForms = %s\n  OptionalByDefault = %s\nINVARIANTS Theorem FixIsFixpoint NoRefsAreFinite NullableRootsAreFinite Emit\nCHECK_DEADLOCK FALSE\n", n, mr, mo, r, modes, fat, forms, optdef)
+	}
+	mkf := func(n, mr, mo int, ring bool, modes string, fat int, forms string) string {
+		return mko(n, mr, mo, ring, modes, fat, forms, "FALSE")
 	}
 	mkx := func(n, mr, mo int, ring bool, modes string, fat int) string {
 		return mkf(n, mr, mo, ring, modes, fat, `{"object"}`)
@@ -248,7 +257,10 @@ func runC06(c *core.Ctx) error {
 		// what the root node of a type may be: nullable objects and aliases, among 3 types and on rings of 4
 		{"TypeGraph_3_forms.cfg", mkf(3, 1, 1, false, `{"plain", "nullable"}`, 0, allForms), 1}, {"TypeGraph_ring4_forms.cfg", mkf(4, 1, 1, true, `{"plain"}`, 0, allForms), 1},
 		// optional key-shortcut links next to a literal key of the same spelling
-		{"TypeGraph_3_shortcut.cfg", mkx(3, 2, 1, false, `{"plain", "shortcut"}`, 0), 1}}
+		{"TypeGraph_3_shortcut.cfg", mkx(3, 2, 1, false, `{"plain", "shortcut"}`, 0), 1},
+		// schemas whose keys are optional by default: a link is mandatory only with `optional: false`
+		{"TypeGraph_3_optdefault.cfg", mko(3, 2, 1, false, `{"plain", "required", "nullable"}`, 0, `{"object"}`, "TRUE"), 1},
+		{"TypeGraph_ring4_optdefault.cfg", mko(4, 1, 1, true, `{"plain", "required"}`, 0, `{"object"}`, "TRUE"), 1}}
 	if c.Thorough() {
 		cfgs = append(cfgs, cfgT{"TypeGraph_3_2_2.cfg", mk(3, 2, 2, false), 7}, cfgT{"TypeGraph_ring6.cfg", mk(6, 1, 1, true), 3}, cfgT{"TypeGraph_4_1_1.cfg", mk(4, 1, 1, false), 1},
 			cfgT{"TypeGraph_4_plainopt_fat1.cfg", mkx(4, 2, 1, false, `{"plain", "optional"}`, 1), 2}, cfgT{"TypeGraph_4_plain_fat2.cfg", mkx(4, 2, 1, false, `{"plain"}`, 2), 3},
